@@ -1,4 +1,172 @@
-import Kap.Basic
+/-
+Driver for C02: reads cases of op lines produced by the Go harness (which ran the REAL TaskMaster with `@sink()` nodes
+under every from()), replays every case on the model and on the history spec, and judges
+  * the spec on the OBSERVED sink recordings (the property itself, evaluated on the implementation's output), then
+  * observed = model (correspondence).
+-/
+import Kap.Spec.C02
+open Kap Kap.C02
 
-/-- Driver for property C02 (replaced by the property's driver). -/
-def main : IO Unit := Kap.driverMain (fun _ _ => .badop "driver not implemented")
+namespace Kap.C02.Drv
+
+def splitBar (s : String) : List String := s.splitOn "|"
+
+def parseDBRPs (tok : String) : Option (List (String × String)) :=
+  if tok == "-" then some [] else
+  (tok.splitOn ",").mapM (fun x =>
+    match splitBar x with
+    | [a, b] => do pure ((← unesc a), (← unesc b))
+    | _ => none)
+
+def parseFrom (tok : String) : Option From :=
+  match splitBar tok with
+  | [db, rp, nm, wh] => do
+    let w ← if wh == "-" then pure none else (do pure (some (← wh.toNat?)))
+    pure { db := (← unesc db), rp := (← unesc rp), name := (← unesc nm), wh := w }
+  | _ => none
+
+def parseFroms (tok : String) : Option (List From) := (tok.splitOn ",").mapM parseFrom
+
+def parsePass (tok : String) : Option (List Nat) :=
+  if tok == "-" then some [] else (tok.splitOn ";").mapM (·.toNat?)
+
+def parsePoint (tok : String) : Option RawPoint :=
+  match splitBar tok with
+  | [id, nm, pass, _v, _host] => do pure { id := (← id.toNat?), name := (← unesc nm), pass := (← parsePass pass) }
+  | _ => none
+
+def parsePoints (tok : String) : Option (List RawPoint) := (tok.splitOn ",").mapM parsePoint
+
+def parseOp (ts : List String) : Option Op :=
+  match ts with
+  | ["start", id, dbrps, froms] => do
+    pure (.start { id := (← unesc id), dbrps := (← parseDBRPs dbrps), froms := (← parseFroms froms) })
+  | ["stop", id] => do pure (.stop (← unesc id))
+  | ["delete", id] => do pure (.delete (← unesc id))
+  | ["write", db, rp, pts] => do pure (.write (← unesc db) (← unesc rp) (← parsePoints pts))
+  | _ => none
+
+def renderIds (l : List Nat) : String := if l.isEmpty then "-" else ",".intercalate (l.map toString)
+
+structure St where
+  defaultRP : String := ""
+  started : Bool := false          -- a `cfg` line was seen (or defaulted)
+  model : TM := {}
+  hist : List Op := []             -- reversed history
+  running : List String := []      -- ids enabled (for the well-formedness check)
+  everStarted : List String := []
+  branches : List String := []
+  sawDedupe : Bool := false
+  sawTwoRunning : Bool := false
+  otherOpBetween : Bool := false
+  anyDelivered : Bool := false
+
+def addBr (st : St) (b : String) : St :=
+  if st.branches.contains b then st else { st with branches := b :: st.branches }
+
+/-- Which branch of `FromNode.matches` decides for this from-node and point? -/
+def matchBranch (f : From) (p : Point) : String :=
+  if f.db != "" && p.db != f.db then "m-db-reject"
+  else if f.rp != "" && p.rp != f.rp then "m-rp-reject"
+  else if f.name != "" && p.name != f.name then "m-name-reject"
+  else match f.wh with
+    | some k => if p.pass.contains k then "m-where-pass" else "m-where-reject"
+    | none => "m-accept"
+
+def noteWrite (st : St) (db rp : String) (pts : List RawPoint) : St := Id.run do
+  let mut st := st
+  if rp == "" then st := addBr st (if st.defaultRP == "" then "write-norp-nodefault" else "write-default-rp")
+  let rp' := if rp == "" then st.model.defaultRP else rp
+  if st.running.length ≥ 2 then st := { st with sawTwoRunning := true }
+  for r in pts do
+    let p := mkPoint db rp' r
+    let exact := st.model.forks (p.db, p.rp, p.name)
+    let wild := st.model.forks (p.db, p.rp, "")
+    if p.name == "" then st := addBr st "point-empty-name"
+    if exact.isEmpty && wild.isEmpty then st := addBr st "fork-nobody"
+    else if wild.isEmpty then st := addBr st "fork-exact-only"
+    else if exact.isEmpty then st := addBr st "fork-wild-only"
+    else
+      if wild.any (fun x => exact.any (fun y => y.1 == x.1)) then
+        st := { addBr st "fork-both-same-task-once" with sawDedupe := true }
+      if wild.any (fun x => !exact.any (fun y => y.1 == x.1)) then st := addBr st "fork-both-distinct-tasks"
+    if exact.length + wild.length ≥ 3 then st := addBr st "fork-3+-entries"
+    for x in exact ++ wild.filter (fun x => !exact.any (fun y => y.1 == x.1)) do
+      for f in x.2.task.froms do
+        let b := matchBranch f p
+        st := addBr st b
+        if b == "m-accept" || b == "m-where-pass" then st := { st with anyDelivered := true }
+  return st
+
+def noteOp (st : St) (op : Op) : St :=
+  match op with
+  | .start d =>
+    if d.dbrps.isEmpty then addBr st "start-no-dbrps" else
+    let st := addBr st (if st.everStarted.contains d.id then "start-again" else "start-first")
+    let st := if d.keys.eraseDups.length < d.keys.length then addBr st "start-duplicate-keys" else st
+    let st := if d.froms.any (·.name == "") && d.froms.any (·.name != "") then addBr st "start-exact+wild" else st
+    let st := if d.dbrps.any (·.2 == "") then addBr st "start-empty-rp-declared" else st
+    let st := if st.running.length ≥ 1 && !st.hist.isEmpty then { st with otherOpBetween := true } else st
+    st
+  | .stop id =>
+    let st := if (st.running.filter (· != id)).length ≥ 1 && st.running.contains id then { st with otherOpBetween := true } else st
+    addBr st (if st.running.contains id then "stop-running" else "stop-idle")
+  | .delete id =>
+    let st := if (st.running.filter (· != id)).length ≥ 1 && st.running.contains id then { st with otherOpBetween := true } else st
+    addBr st (if st.running.contains id then "delete-running" else "delete-idle")
+  | .write db rp pts => noteWrite st db rp pts
+
+def expectObs (st : St) (op : Op) : String :=
+  match op with
+  | .start d => if d.dbrps.isEmpty then "err:nodbrp" else "ok"
+  | _ => if st.model.sentOnClosed then "panic" else "ok"
+
+def judge (_id : String) (lines : Array String) : Verdict := Id.run do
+  let mut st : St := {}
+  for l in lines do
+    let (opT, obs) := splitObs (tokens l)
+    match opT with
+    | "cfg" :: rp :: _ =>
+      let some rp := unesc rp | return .badop l
+      if !st.hist.isEmpty then return .badop s!"cfg after operations: {l}"
+      st := { st with defaultRP := rp, started := true, model := init rp }
+    | ["final", T, i] =>
+      let some T := unesc T | return .badop l
+      let some i := i.toNat? | return .badop l
+      let ops := st.hist.reverse
+      let sp := renderIds (specDelivered st.defaultRP T i ops)
+      let m := renderIds (st.model.delivered T i)
+      if sp != "-" then st := addBr st "delivered-nonempty"
+      if obs != [sp] then
+        return .specfail "delivered-exactly-once-in-order" s!"task {esc T} from#{i}: spec {sp} observed {" ".intercalate obs}"
+      if obs != [m] then return .mismatch s!"task {esc T} from#{i}: model {m} observed {" ".intercalate obs}"
+    | ["quiesce"] =>
+      if obs != ["0"] then return .mismatch s!"the harness timed out waiting for the pipeline: {" ".intercalate obs}"
+    | _ =>
+      match parseOp opT with
+      | some op =>
+        -- well-formedness of the generated history
+        match op with
+        | .start d => if !d.dbrps.isEmpty && st.running.contains d.id then return .badop s!"start of an executing id: {l}"
+        | _ => pure ()
+        st := noteOp st op
+        let model' := step st.model op
+        let want := expectObs { st with model := model' } op
+        if obs != [want] then return .mismatch s!"{" ".intercalate opT}: model {want} observed {" ".intercalate obs}"
+        let running := match op with
+          | .start d => if d.dbrps.isEmpty then st.running else d.id :: st.running
+          | .stop id => st.running.filter (· != id)
+          | .delete id => st.running.filter (· != id)
+          | .write _ _ _ => st.running
+        let ever := match op with
+          | .start d => if d.dbrps.isEmpty || st.everStarted.contains d.id then st.everStarted else d.id :: st.everStarted
+          | _ => st.everStarted
+        st := { st with model := model', hist := op :: st.hist, running := running, everStarted := ever }
+      | none => return .badop l
+  -- non-trivial: something was delivered AND (the two-key case occurred, or another task was started/stopped while one was running)
+  let nt := st.anyDelivered && (st.sawDedupe || (st.sawTwoRunning && st.otherOpBetween))
+  return .ok nt st.branches.reverse
+
+end Kap.C02.Drv
+
+def main : IO Unit := Kap.driverMain Kap.C02.Drv.judge
